@@ -1,10 +1,10 @@
 SPECIFICATION Spec
 CONSTANTS
-  G = {1, 2}
+  G = {1}
   Ops = 3
   PutEarly = FALSE
-  ResetOnError = TRUE
-  LazyInit = "once"
+  ResetOnError = FALSE
+  LazyInit = "static"
   MayFail = TRUE
 INVARIANTS Independent Exclusive HeldNotPooled PoolClean NoBlindRead
 CHECK_DEADLOCK FALSE
